@@ -115,6 +115,49 @@ def main(tier):
                 run.violation("handler-result-not-used-by-copy", {"source": src, "expected_value": want, "expected_process_text": dwant, "implementation": o[:400], "process_text": dtext})
             else:
                 run.nontriv(("copy", src))
+        # ---------- (4) tie: the engine model with the custom-dice trio vs the real parser with a registered regex
+        import re as _re
+        pats = ["E(\\d+)", "#\\d+", "[X-Z]\\d", "@(\\w+)@", "E"]
+        pcases = []
+        for tpl in ctx_templates + ["({T}", "[{T},", "{T}{T}", "{T} {T}", "a{T}", "{T}a", "1{T}", "{T}1", "'{T}'", "`{T}`", "({T})({T})", "x={T}{T}", "^st力量{T}", "^st{T}:1"]:
+            pat = r.choice(pats)
+            term = {"E(\\d+)": "E%d" % r.randint(0, 99), "#\\d+": "#%d" % r.randint(0, 99), "[X-Z]\\d": r.choice("XYZ") + str(r.randint(0, 9)),
+                    "@(\\w+)@": "@ab%d@" % r.randint(0, 9), "E": "E"}[pat]
+            src = tpl.replace("{T}", term)
+            pcases.append((pat, src))
+        for _ in range(600 if tier == "thorough" else 150):
+            g = ProgGen(r, illtyped=0.03)
+            src, c2 = g.program(r.randint(1, 2))
+            pat = r.choice(pats)
+            term = {"E(\\d+)": "E7", "#\\d+": "#12", "[X-Z]\\d": "Y3", "@(\\w+)@": "@q@", "E": "E"}[pat]
+            # splice the term in place of some number
+            nums = list(_re.finditer(r"\b\d+\b", src))
+            if nums:
+                m = r.choice(nums)
+                src = src[:m.start()] + term + src[m.end():]
+            pcases.append((pat, src))
+        glines, mlines = [], []
+        for pat, src in pcases:
+            b = src.encode("utf-8")
+            rx = _re.compile(pat.encode())
+            tbl = []
+            for off in range(len(b)):
+                mm = rx.match(b, off)
+                if mm and mm.end() > off:
+                    tbl.append(f"{off}:{mm.end() - off}")
+            glines.append(f"pegtracec - {hx(pat)} {hx(src)}")
+            mlines.append(f"pegtracec - {','.join(tbl) if tbl else '-'} {hx(src)}")
+        go_o = go_child().run(glines)
+        le_o = lean_child().run(mlines)
+        ps = run.streams.setdefault("peg-custom", {"cases": 0, "agree": 0})
+        for (pat, src), a, b in zip(pcases, go_o, le_o):
+            ps["cases"] += 1
+            run.evaluations += 1
+            if a == b:
+                ps["agree"] += 1
+                run.nontriv(("pegc", pat, src))
+            else:
+                run.violation("correspondence:peg-custom", {"stream": "peg-custom", "pattern": pat, "source": src, "implementation": a[:300], "model": b[:300]})
         run.sample({"oracle": "transparent", "line": linesX[0][:200], "out": oX[0][:200]})
         run.sample({"oracle": "acting", "line": lines[0][:200], "out": out[0][:200]})
     return run.finish(
